@@ -91,6 +91,12 @@ impl SocketBackend for GenericSocketBackend {
 
     fn shutdown(&self) {
         self.peers.clear_sync();
+        // The read halves live in the receive queue, which is shared with
+        // whoever still holds this backend (a pending handshake, the wakers
+        // registered by the streams themselves): release them explicitly.
+        if let Some(inner) = &self.fair_queue_inner {
+            inner.lock().clear();
+        }
     }
 
     fn monitor(&self) -> &Mutex<Option<mpsc::Sender<SocketEvent>>> {
